@@ -863,9 +863,8 @@ func init() {
 		},
 	})
 
-	// Set on a nil Tags: kept apart from codec.tags (not listed in conf/C01.json) because
-	// the current Go code loses the value while reporting success; see
-	// notes/proposed-fixes/tags-set-nil.diff.
+	// Set on a nil Tags (repaired in 637a0fa: an error is returned).  The oracle class
+	// tags-set-nil fires if Set ever again reports success while the value is lost.
 	Register(&Suite{
 		Name:  "codec.tags.nilrecv",
 		Prop:  []string{"C01"},
